@@ -2,10 +2,11 @@ package main
 
 import (
 	"fmt"
-	"strings"
 	"go/ast"
 	"go/token"
 	"go/types"
+	"os"
+	"strings"
 )
 
 type retState struct {
@@ -176,8 +177,7 @@ func (c *Ctx) execStmt(env *Env, s ast.Stmt, st *State) []*State {
 		c.trust("channel sends are not modelled")
 		return alive(st)
 	case *ast.SelectStmt:
-		c.unsupported("%s: select statement", c.e.pos(x.Pos()))
-		return nil
+		return c.execSelect(env, x, st)
 	}
 	c.unsupported("%s: unsupported statement %T", c.e.pos(s.Pos()), s)
 	return nil
@@ -217,7 +217,20 @@ func (c *Ctx) execAssign(env *Env, x *ast.AssignStmt, st *State) {
 			}
 		case *ast.TypeAssertExpr:
 			v := env.eval(r, st)
-			vals = []Val{v, boolVal(c.fresh("tassert_ok", "Bool"))}
+			okT := c.fresh("tassert_ok", "Bool")
+			if r.Type != nil {
+				// v, ok := x.(T): ok is the dynamic-type test used by type switches
+				if tt := env.typeOfExpr(r.Type); tt != nil {
+					if _, isIf := types.Unalias(tt).Underlying().(*types.Interface); !isIf {
+						sv := env.eval(r.X, st)
+						tagFn := "dyntype_" + mangle(env.sortOf(sv.Ty))
+						c.decls.declFun(tagFn, []string{env.sortOf(sv.Ty)}, "Int")
+						okT = eq(app(tagFn, sv.T), fmt.Sprint(c.typeTag(tt)))
+						v = Val{T: ite(okT, v.T, env.zero(tt).T), Ty: v.Ty}
+					}
+				}
+			}
+			vals = []Val{v, boolVal(okT)}
 		case *ast.UnaryExpr:
 			if r.Op == token.ARROW {
 				v := env.eval(r, st)
@@ -548,6 +561,9 @@ func (c *Ctx) typeTag(t types.Type) int {
 func (c *Ctx) modifiedIn(env *Env, nodes []ast.Node) (vars map[types.Object]bool, heapAll bool, fields map[string]bool) {
 	vars = map[types.Object]bool{}
 	fields = map[string]bool{}
+	if c.modDepth == 0 {
+		c.loopNodes = nodes
+	}
 	c.lastDirect = map[string][]types.Object{}
 	c.lastIndirect = map[string]bool{}
 	c.lastExprs = map[string][]ast.Expr{}
@@ -562,6 +578,9 @@ func (c *Ctx) modifiedIn(env *Env, nodes []ast.Node) (vars map[types.Object]bool
 			// x.f = ... : if x is a pointer, heap field f; else the variable at the root
 			if t := env.pkg.info.TypeOf(x.X); t != nil {
 				if _, _, isPtr := structOf(env.subst(t)); isPtr {
+					if id, ok := unparen(x.X).(*ast.Ident); ok && c.modDepth == 0 && c.loopLocalFresh(env, id) {
+						return // an object allocated in this iteration: no object that existed before changes
+					}
 					fields[x.Sel.Name] = true
 					// remember the written object when it is a plain variable
 					if id, ok := unparen(x.X).(*ast.Ident); ok && c.modDepth == 0 {
@@ -621,7 +640,42 @@ func (c *Ctx) callMayWriteHeap(env *Env, x *ast.CallExpr, fields map[string]bool
 	if fobj == nil {
 		return false
 	}
-	fi := c.e.lookupFunc(fobj)
+	// natively specified library calls that write ghost state
+	full := fobj.FullName()
+	if o := fobj.Origin(); o != nil {
+		full = o.FullName()
+	}
+	if _, ok := stdSpecs[full]; ok {
+		mark := func(fs ...string) {
+			for _, f := range fs {
+				fields[f] = true
+				c.lastIndirect[f] = true
+			}
+		}
+		switch {
+		case full == "io.ReadFull" || full == "(io.Reader).Read" || full == "io.CopyN" || full == "io.ReadAll" ||
+			full == "encoding/binary.Read" || full == "(*bytes.Reader).Seek":
+			mark("pos")
+		case strings.HasPrefix(full, "(*sync/atomic."):
+			if sel, ok := unparen(x.Fun).(*ast.SelectorExpr); ok {
+				if fsel, ok := unparen(sel.X).(*ast.SelectorExpr); ok {
+					mark(fsel.Sel.Name+"Flag", fsel.Sel.Name+"Val")
+				}
+			}
+		case full == "close":
+		}
+		return false
+	}
+	var recvTy types.Type
+	if sel, ok := unparen(x.Fun).(*ast.SelectorExpr); ok {
+		if _, isPkg := env.pkg.info.Uses[identOf(sel.X)].(*types.PkgName); !isPkg {
+			recvTy = env.pkg.info.TypeOf(sel.X)
+		}
+	}
+	fi := env.resolveCallee(fobj, recvTy)
+	if os.Getenv("GOVC_DEBUG") != "" {
+		fmt.Fprintf(os.Stderr, "mayWrite %s recvTy=%v fi=%v\n", full, recvTy, fi != nil)
+	}
 	if fi == nil {
 		return false
 	}
@@ -636,6 +690,11 @@ func (c *Ctx) callMayWriteHeap(env *Env, x *ast.CallExpr, fields map[string]bool
 		}
 		for _, m := range fi.Contract.Modifies {
 			base, f, _ := cutLast(m, ".")
+			if base == recvName && recvName != "" && recvExpr != nil && c.modDepth == 0 {
+				if id, ok := unparen(recvExpr).(*ast.Ident); ok && c.loopLocalFresh(env, id) {
+					continue // receiver allocated in this iteration
+				}
+			}
 			if f == "*" {
 				// "x.*" / "Type.*": every field of that struct type
 				fns := c.starFields(fi, base)
@@ -775,6 +834,16 @@ func (c *Ctx) havocLoopTargets(env *Env, st *State, nodes []ast.Node) {
 	// which is equivalent to a havoc
 	for f := range fields {
 		c.loopHavocFields[f] = true
+		if st.pendingHavoc == nil {
+			st.pendingHavoc = map[string]bool{}
+		}
+		st.pendingHavoc[f] = true
+	}
+	if all {
+		if st.pendingHavoc == nil {
+			st.pendingHavoc = map[string]bool{}
+		}
+		st.pendingHavoc["*"] = true
 	}
 }
 
@@ -828,14 +897,16 @@ func (c *Ctx) execFor(env *Env, x *ast.ForStmt, st *State, label string) []*Stat
 		}
 		for k, inv := range spec.Invs {
 			g := ie.evalBool(inv.Expr, s)
+			c.curGroup = inv.Group
 			c.addObl(s, fmt.Sprintf("loop%d/inv#%d/%s", n, k, phase), "inv", g, c.e.pos(x.Pos()), "invariant "+inv.Text, nil)
+			c.curGroup = ""
 		}
 	}
 	checkInvs(st, "init")
 	c.havocLoopTargets(env, st, []ast.Node{x.Cond, x.Post, x.Body})
 	if spec != nil {
 		for _, inv := range spec.Invs {
-			st.assume(ie.evalBool(inv.Expr, st))
+			c.assumeGrouped(st, ie.evalBool(inv.Expr, st), inv.Group)
 		}
 	}
 	var variant string
@@ -891,8 +962,10 @@ func (c *Ctx) loopExits(env *Env, spec *LoopSpec, n int, pos token.Pos, out []*S
 	for ei, s := range out {
 		for k, ex := range spec.Exits {
 			g := ie.evalBool(ex.Expr, s)
+			c.curGroup = ex.Group
 			c.addObl(s, fmt.Sprintf("loop%d/exit#%d@e%d", n, k, ei), "inv", g, c.e.pos(at), "exit "+ex.Text, nil)
-			s.assume(g)
+			c.curGroup = ""
+			c.assumeGrouped(s, g, ex.Group)
 		}
 	}
 	return out
@@ -966,7 +1039,9 @@ func (c *Ctx) execRange(env *Env, x *ast.RangeStmt, st *State, label string) []*
 		e2.loopPre = preLoop
 		for k, inv := range spec.Invs {
 			g := e2.evalBool(inv.Expr, s)
+			c.curGroup = inv.Group
 			c.addObl(s, fmt.Sprintf("loop%d/inv#%d/%s", n, k, phase), "inv", g, c.e.pos(x.Pos()), "invariant "+inv.Text, nil)
+			c.curGroup = ""
 		}
 	}
 	_ = ie
@@ -988,7 +1063,7 @@ func (c *Ctx) execRange(env *Env, x *ast.RangeStmt, st *State, label string) []*
 		e2 := c.invEnv(env, pos, mkExtra(i))
 		e2.loopPre = preLoop
 		for _, inv := range spec.Invs {
-			st.assume(e2.evalBool(inv.Expr, st))
+			c.assumeGrouped(st, e2.evalBool(inv.Expr, st), inv.Group)
 		}
 	}
 	fr := c.frame()
@@ -1069,7 +1144,9 @@ func (c *Ctx) execRangeMap(env *Env, x *ast.RangeStmt, st *State, label string, 
 		e2.visitedSet = visited
 		for k, inv := range spec.Invs {
 			g := e2.evalBool(inv.Expr, sx)
+			c.curGroup = inv.Group
 			c.addObl(sx, fmt.Sprintf("loop%d/inv#%d/%s", n, k, phase), "inv", g, c.e.pos(x.Pos()), "invariant "+inv.Text, nil)
+			c.curGroup = ""
 		}
 	}
 	if keyObj != nil {
@@ -1090,7 +1167,7 @@ func (c *Ctx) execRangeMap(env *Env, x *ast.RangeStmt, st *State, label string, 
 		e2 := c.invEnv(env, pos, mk(visited, count.T))
 		e2.visitedSet = visited
 		for _, inv := range spec.Invs {
-			st.assume(e2.evalBool(inv.Expr, st))
+			c.assumeGrouped(st, e2.evalBool(inv.Expr, st), inv.Group)
 		}
 	}
 	fr := c.frame()
@@ -1267,4 +1344,114 @@ func (c *Ctx) recvElemType(env *Env, nodes []ast.Node) types.Type {
 		})
 	}
 	return t
+}
+
+func identOf(e ast.Expr) *ast.Ident {
+	id, _ := unparen(e).(*ast.Ident)
+	return id
+}
+
+
+// loopLocalFresh: the identifier names a variable that is declared inside the loop being
+// abstracted, initialised there by an allocation (&T{...} or new(T)) and never reassigned:
+// writes through it reach only an object that did not exist at the loop head.
+func (c *Ctx) loopLocalFresh(env *Env, id *ast.Ident) bool {
+	o := env.resolveIdent(id)
+	if o == nil || len(c.loopNodes) == 0 {
+		return false
+	}
+	inside := false
+	for _, n := range c.loopNodes {
+		if n != nil && n.Pos() <= o.Pos() && o.Pos() < n.End() {
+			inside = true
+		}
+	}
+	if !inside {
+		return false
+	}
+	defs, ok := 0, true
+	for _, n := range c.loopNodes {
+		if n == nil {
+			continue
+		}
+		ast.Inspect(n, func(nd ast.Node) bool {
+			as, isAs := nd.(*ast.AssignStmt)
+			if !isAs {
+				return true
+			}
+			for i, l := range as.Lhs {
+				lid, isId := unparen(l).(*ast.Ident)
+				if !isId || env.resolveIdent(lid) != o {
+					continue
+				}
+				defs++
+				if len(as.Rhs) != len(as.Lhs) {
+					ok = false
+					continue
+				}
+				switch r := unparen(as.Rhs[i]).(type) {
+				case *ast.UnaryExpr:
+					if _, isLit := unparen(r.X).(*ast.CompositeLit); !(r.Op == token.AND && isLit) {
+						ok = false
+					}
+				case *ast.CallExpr:
+					if fid, isId := unparen(r.Fun).(*ast.Ident); !(isId && fid.Name == "new") {
+						ok = false
+					}
+				default:
+					ok = false
+				}
+			}
+			return true
+		})
+	}
+	return ok && defs == 1
+}
+
+
+// execSelect: every communication clause is a possible branch (which one is taken is up to
+// the scheduler); a received value is arbitrary. Channel contents are not modelled.
+func (c *Ctx) execSelect(env *Env, x *ast.SelectStmt, st *State) []*State {
+	c.trust("select: every ready case may be taken, received values are arbitrary (channel contents are not modelled)")
+	fr := c.frame()
+	lc := &loopCtx{isSwitch: true}
+	fr.loops = append(fr.loops, lc)
+	var out []*State
+	for _, cl := range x.Body.List {
+		cc := cl.(*ast.CommClause)
+		t := st.clone()
+		switch cm := cc.Comm.(type) {
+		case nil:
+		case *ast.SendStmt:
+			env.eval(cm.Value, t)
+		case *ast.ExprStmt:
+		case *ast.AssignStmt:
+			if len(cm.Rhs) == 1 {
+				if ue, ok := unparen(cm.Rhs[0]).(*ast.UnaryExpr); ok && ue.Op == token.ARROW {
+					var et types.Type
+					if ct := env.pkg.info.TypeOf(ue.X); ct != nil {
+						if ch, ok := types.Unalias(env.subst(ct)).Underlying().(*types.Chan); ok {
+							et = ch.Elem()
+						}
+					}
+					for i, l := range cm.Lhs {
+						var v Val
+						if i == 0 && et != nil {
+							v = env.havoc(t, "recv", et)
+						} else {
+							v = boolVal(c.fresh("recv_ok", "Bool"))
+						}
+						if id, ok := unparen(l).(*ast.Ident); ok && id.Name == "_" {
+							continue
+						}
+						c.assign(env, l, v, t)
+					}
+				}
+			}
+		}
+		out = append(out, c.execBlock(env, cc.Body, []*State{t})...)
+	}
+	fr.loops = fr.loops[:len(fr.loops)-1]
+	out = append(out, lc.breaks...)
+	return out
 }
